@@ -8,3 +8,6 @@ import WS.Props.C05
 import WS.Props.C04
 import WS.Props.C07
 import WS.Props.C03
+import WS.Props.C18
+import WS.Props.C19
+import WS.Props.C20
